@@ -813,6 +813,16 @@ class Gen:
     def newoid(self):
         rng, w = self.rng, self.w
         lv = w.top
+        if lv.txn is None and lv.next is not None and rng.random() < 0.45 and self.cur(lv.next) is None \
+                and lv.next not in lv.issued:
+            # occupy the running candidate (`_next_oid`) by storing a record with exactly that oid, so that
+            # the next allocation has to go through the draw stream
+            self.k += 1
+            self.x += 1
+            self.emit('begin %d %d' % (self.x, UNIT * self.k))
+            self.emit('store %d %d 0 %d' % (self.x, lv.next, self.newdata()))
+            self.emit('vote %d' % self.x)
+            self.emit('finish %d' % self.x)
         taken_live = sorted({o for _, recs in w.H for o in recs
                              if self.cur(o) is not None and self.cur(o)[1] is not None})
         uncreated = {o for _, recs in w.H for o in recs if self.cur(o)[1] is None}
@@ -1141,10 +1151,12 @@ def main(argv=None):
                                                ('lb', 'ls', 'hist', 'gt', 'load')][:14]) if nontriv else None)
         if i is not None:
             sig = signature(ops, i, real)
-            sm = shrink(ck, ops[:i + 1], sig)
+            sm = shrink(ck, ops[:i + 1], sig) if len(ck.violations) < 2 else None
             if sm is None:
                 sm = (ops[:i + 1], real[:i + 1], bad)
             ck.violation(sig, sm[2], dict(ops=sm[0], real=sm[1]))
+            if len(ck.violations) >= 6:
+                break                      # enough evidence; keep the failing run short
         elif real != mo:
             j = [k for k in range(len(ops)) if real[k] != mo[k]][0]
             ck.mismatch('model/impl differ at op %d %r: impl %s model %s' % (j, ops[j], real[j], mo[j]),
